@@ -296,6 +296,12 @@ func applyOp(root protoreflect.Message, op ROp, hasGetters bool) (ret RRet) {
 		held := m.GetUnknown()
 		m.SetUnknown(proj.ToBytes(op.U))
 		return RRet{"bytes", proj.Bytes(held)}
+	case "UnknownHandover":
+		other := m.Type().New()
+		other.SetUnknown(m.GetUnknown())
+		m.SetUnknown(nil)
+		m.SetUnknown(append(m.GetUnknown(), proj.ToBytes(op.U)...))
+		return RRet{"bytes", proj.Bytes(other.GetUnknown())}
 	case "GetUnknown":
 		return RRet{"bytes", proj.Bytes(m.GetUnknown())}
 	case "SetUnknown":
@@ -362,6 +368,16 @@ func applyOp(root protoreflect.Message, op ROp, hasGetters bool) (ret RRet) {
 		e.SetUnknown(proj.ToBytes(op.U))
 		l.Truncate(n)
 		return RRet{"bytes", proj.Bytes(e.GetUnknown())}
+	case "MSetFill":
+		w := m.NewField(fd)
+		m.Set(fd, w)
+		k := proj.ScalarValue(fd.MapKey().Kind(), op.K).MapKey()
+		if fd.MapValue().Message() != nil {
+			w.Map().Set(k, w.Map().NewValue())
+		} else {
+			w.Map().Set(k, proj.ScalarValue(fd.MapValue().Kind(), op.X))
+		}
+		return rOK()
 	case "MRetained":
 		x := m.Mutable(fd).Map()
 		k := proj.ScalarValue(fd.MapKey().Kind(), op.K).MapKey()
